@@ -219,6 +219,11 @@ func (u *upstream) RoundTrip(req *http.Request) (*http.Response, error) {
 			}
 		}
 		b.Nop = len(b.Series) == 0
+		if b.Nop && len(u.order) > 0 {
+			// only the priming request is empty; a later empty body is a retry that lost its payload (or a
+			// flush of nothing, which the forwarder never posts)
+			u.note("empty request body after the priming request (request #%d)", len(u.order)+1)
+		}
 		if b.Nop {
 			b.Script = []string{"ok"}
 		} else {
@@ -302,8 +307,17 @@ func buildMap(lx *statsd.VerifLexer, rng *rand.Rand, cfg config, client int, idc
 	mm := gostatsd.NewMetricMap(false)
 	rec := &dispatchRec{counters: map[string]int64{}, client: client}
 	n := 1 + rng.Intn(12)
-	for i := 0; i < n; i++ {
+	// Every dynamic-header group of a dispatch carries at least one unique id, so that no two request bodies
+	// are ever byte-identical (payloads have no timestamps: a group holding only a gauge could otherwise
+	// legitimately repeat and look like a re-send).
+	hasID := map[string]bool{}
+	var missing []string
+	for i := 0; i < n || len(missing) > 0; i++ {
 		tenant := tenantPool[rng.Intn(len(tenantPool))]
+		forceID := false
+		if i >= n {
+			tenant, missing, forceID = missing[0], missing[1:], true
+		}
 		tags := []string{}
 		if tenant != "" {
 			tags = append(tags, "tenant:"+tenant)
@@ -314,7 +328,24 @@ func buildMap(lx *statsd.VerifLexer, rng *rand.Rand, cfg config, client int, idc
 		}
 		var line string
 		s := rng.Intn(3)
-		switch typ := rng.Intn(4); typ {
+		typ := rng.Intn(4)
+		if forceID {
+			typ = 2
+		}
+		if typ == 1 || typ == 2 {
+			hasID[tenant] = true
+		} else if !hasID[tenant] {
+			hasID[tenant] = false
+		}
+		if i == n-1 {
+			for t, ok := range hasID {
+				if !ok {
+					missing = append(missing, t)
+				}
+			}
+			sort.Strings(missing)
+		}
+		switch typ {
 		case 0:
 			v := rng.Intn(21) - 5
 			name := fmt.Sprintf("c%d", s)
